@@ -102,6 +102,8 @@ EvalN(e, x, dv, D) ==
             [] e.op = 60 -> D * Cardinality({j \in 2..n : A(j) = A(1)}) \* numberof
             [] e.op = 77 -> (A(1) * A(1)) \div D                      \* sqr
             [] e.op = 76 -> IntPow(A(1), e.a[2].v)   \* pow, constant integer exponent (D = 1 only)
+            [] e.op = 78 -> IntPow(2, A(2))          \* 2^a for a >= 0 (D = 1 only; ExactE)
+            [] e.op = 1078 -> IntPow(2, -A(1))       \* (1/2)^a for a <= 0 (D = 1 only; ExactE)
 
 EvalL(e, x, dv, D) ==
   LET A(j) == EvalN(e.a[j], x, dv, D)
@@ -112,7 +114,7 @@ EvalL(e, x, dv, D) ==
   IN CASE e.k = "n" -> e.v # 0
        \* a numeric expression used as a condition is true when it is not 0
        [] e.k \in {"v", "d", "pl"} -> EvalN(e, x, dv, D) # 0
-       [] e.op \in {0, 1, 2, 3, 6, 11, 12, 15, 16, 35, 54, 59, 60, 76, 77} -> EvalN(e, x, dv, D) # 0
+       [] e.op \in {0, 1, 2, 3, 6, 11, 12, 15, 16, 35, 54, 59, 60, 76, 77, 78, 1078} -> EvalN(e, x, dv, D) # 0
        [] e.op = 20 -> L(1) \/ L(2)
        [] e.op = 21 -> L(1) /\ L(2)
        [] e.op = 22 -> A(1) < A(2)
@@ -147,6 +149,8 @@ ExactE(e, x, dv, D) ==
             [] e.op = 3 -> LET q == EvalN(e.a[2], x, dv, D)
                            IN Divides(q, D * EvalN(e.a[1], x, dv, D))
             [] e.op = 76 -> D = 1 /\ e.a[2].k = "n" /\ e.a[2].v >= 0
+            [] e.op = 78 -> D = 1 /\ e.a[1].k = "n" /\ e.a[1].v = 2 /\ EvalN(e.a[2], x, dv, D) \in 0..20
+            [] e.op = 1078 -> D = 1 /\ -EvalN(e.a[1], x, dv, D) \in 0..20
             [] OTHER -> TRUE
 
 -----------------------------------------------------------------------------
@@ -267,6 +271,10 @@ FuncValSet(c, x, D) ==
   ELSE IF c.type = "DivConstraint"
     THEN LET a1 == x[c.args[1] + 1]  a2 == x[c.args[2] + 1]
          IN IF a2 # 0 /\ Divides(a2, D * a1) THEN {SDiv(D * a1, a2)} ELSE {}
+  ELSE IF c.type = "ExpAConstraint"      \* base as [numerator, denominator]: 2/1 or 1/2; D = 1
+    THEN LET t == x[c.args[1] + 1]
+             e == IF c.params[1] = <<2, 1>> THEN t ELSE -t
+         IN IF D = 1 /\ c.params[1] \in {<<2, 1>>, <<1, 2>>} /\ e \in 0..20 THEN {IntPow(2, e)} ELSE {}
   ELSE {FuncVal(c, x, D)}
 
 FuncComputable(c, D) ==
@@ -287,6 +295,7 @@ ConSat(c, x, D) ==
          ELSE IF c.type = "DivConstraint"
                 THEN x[c.args[2] + 1] # 0 /\ x[c.res + 1] * x[c.args[2] + 1] = D * x[c.args[1] + 1]
          ELSE IF c.type = "PLConstraint" THEN PLConSat(c.pl, x[c.args[1] + 1], x[c.res + 1], D)
+         ELSE IF c.type = "ExpAConstraint" THEN x[c.res + 1] \in FuncValSet(c, x, D)
          ELSE IF c.type = "QuadraticConeConstraint"
                 THEN LET t(j) == c.params[j][1] * x[c.args[j] + 1]
                      IN t(1) >= 0 /\ t(1) * t(1) >= SeqSum([j \in 1..(Len(c.args) - 1) |-> t(j + 1) * t(j + 1)])
@@ -312,6 +321,7 @@ ConKnown(c, D) ==
   \/ /\ c.k = "func"
      /\ \/ FuncComputable(c, D)
         \/ c.type \in {"DivConstraint", "PLConstraint"}
+        \/ (c.type = "ExpAConstraint" /\ D = 1)
         \/ (c.type \in {"QuadraticConeConstraint", "RotatedQuadraticConeConstraint"} /\ D = 1)
 
 -----------------------------------------------------------------------------
